@@ -1519,7 +1519,16 @@ class CodeGenerator(NodeVisitor):
         self.writeline("caller = ")
         self.macro_def(macro_ref, call_frame)
         self.start_write(frame, node)
+        # A macro returns Markup when autoescaping is on; any other
+        # callable may return a plain string that still needs escaping.
+        if frame.eval_ctx.volatile:
+            self.write("(escape if context.eval_ctx.autoescape else str)(")
+        elif frame.eval_ctx.autoescape:
+            self.write("escape(")
+        else:
+            self.write("str(")
         self.visit_Call(node.call, frame, forward_caller=True)
+        self.write(")")
         self.end_write(frame)
 
         if frame.require_output_check:
